@@ -1,8 +1,10 @@
 """C37 — conditional git ref updates honour the expected old value.
 
 Anchors: breezy/git/transportgit.py TransportRefsContainer.set_if_equals,
-remove_if_equals, add_if_new (with read_loose_ref, get_packed_refs,
-_remove_packed_ref and dulwich's RefsContainer.follow/read_ref they rest on).
+remove_if_equals, add_if_new (with read_loose_ref, get_packed_refs and its
+per-container `_packed_refs` cache, _remove_packed_ref and dulwich's
+RefsContainer.follow/read_ref they rest on); breezy/git/interrepo.py
+InterToLocalGitRepository.fetch_refs (the caller during push).
 
 T2: ref stores over a fixed universe of six ref names (HEAD, branches, a tag, a
 nested name, a remote ref) are generated — absent / loose / packed / loose+packed /
@@ -11,31 +13,65 @@ local disk) transport, one real TransportRefsContainer operation is run with a
 matching / non-matching / ZERO_SHA / None expected value, and the result flag and
 the complete store afterwards (every loose file, the packed-refs file) are
 compared with the Lean model applied to the store observed before the operation.
-Sequences of operations on one container and the six interleavings of the
-read/write phases of two concurrent updaters (threads stopped at the
-transport's put_bytes) are compared the same way.
-Oracle (no model): the compare-and-swap specification evaluated on the
-observed stores; for two updaters, linearizability (the outcome equals that of
-one of the two sequential orders).
+Families:
+  * single operations (one name x all value kinds x all expected values enumerated
+    completely), sequences on one container, unloaded packed cache, local disk;
+  * TWO CONTAINERS on one transport operated one after the other, plus an outside
+    `pack-refs` of one ref: before every operation the acting container's
+    `_packed_refs` cache is observed and handed to the model (`stepc`: result,
+    store, cache afterwards), so stale caches (container A loaded packed-refs,
+    container B removed / an outside process packed a ref, then A does a CAS
+    with the value it remembers) are part of the compared behaviour; the whole
+    sequence is also run by the model (`runcc`) together with the hypothesis
+    of containers_coherent_is_cas_partial (`coh=`);
+  * all read/write interleavings of two threaded updaters of ANY kind
+    (set_if_equals / add_if_new / remove_if_equals, stores with packed refs)
+    stopped at the transport's first mutation (put_bytes / delete), complete
+    and partial schedules (the phases reached are compared too);
+  * RefsContainer.follow separately.
+Oracle (no model): the compare-and-swap specification evaluated on the stores
+observed on the transport (real name / existence taken from a FRESH container's
+follow, never from the acting container's cache); for two updaters,
+linearizability (the outcome equals that of one of the two sequential orders);
+for fetch_refs (real bzr -> git conversion into a bare git repository, the ref
+absent / loose / packed / reached through the HEAD symref, with another
+container changing the ref between fetch_refs' snapshot and its conditional
+update): the ref a successful call reports must be the value the ref holds
+afterwards, a ref changed concurrently must be left alone, an unchanged one
+must be updated.
 
 Findings handled here (DESIGN §7 F2): the model's setIfEquals/removeIfEquals are
-the CAS behaviour the theorems are about; the code as found is modelled by
+the CAS behaviour the theorems are about; the code as found was modelled by
 `...Legacy`.  Families, computed from the concrete case:
   cas-old-value-ignored          set_if_equals/remove_if_equals with a non-matching expected value
-                                 return True and overwrite/delete (F2)
+                                 return True and overwrite/delete (F2; fixed in /repo)
   remove-packed-cache-unloaded   remove_if_equals on a container whose packed-refs cache was never
-                                 loaded returns True but leaves the packed entry (ref still exists)
+                                 loaded returns True but leaves the packed entry (fixed in /repo)
   cas-race-unlocked              two updaters: both compare, then both write (no lock is taken)
+  cas-stale-packed-cache         the acting container's packed-refs cache differs from the packed-refs
+                                 file and a container with a fresh view performs the same operation
+                                 on the same transport state correctly
+  fetch-refs-claims-failed-update  fetch_refs returns name -> new value although its conditional
+                                 update failed (ref changed by someone else): CAS result discarded
+  fetch-refs-symref-update-dropped fetch_refs on a name that is a symbolic ref passes the text
+                                 'ref: ...' as expected value: the update never happens, success reported
 A difference from the model is not recorded as a T2 mismatch only if the
 implementation agrees exactly with the legacy model on that case and the case
-belongs to one of these families.
+belongs to one of the two F2 families.  The model variant for the cache
+(`stepc`: cache kept / `stepf`: packed-refs re-read at the start of every
+conditional update) is selected by a probe of the code (evidence key
+packed_cache_reloaded).
 
 Mutants this check was built against (on the fixed code): comparison dropped for packed-only refs;
 compare against the name instead of the followed real name; `!=` -> `==`;
 absent ref compared with None instead of ZERO_SHA; add_if_new ignoring packed
 entries; remove_if_equals following symrefs; write before compare; returning
 True without writing.  Harmless: helper extracted, packed lookup via dict.get
-default, reading the loose ref once.
+default, reading the loose ref once.  Improvement round: _remove_packed_ref not
+re-reading packed-refs (stale cache written back: resurrects a ref another
+container removed); add_if_new checking only the loose file; remove_if_equals
+deleting the loose file before comparing; fetch_refs (with the proposed fix)
+reporting the update although set_if_equals returned False.
 """
 import itertools
 import os
@@ -45,27 +81,38 @@ from vlib import env
 
 THEOREMS = [
     "cas_success_iff", "cas_fail_unchanged", "cas_success_writes", "cas_success_resolves",
+    "cas_success_iff_resolve", "cas_loop_fails",
     "remove_cas_success_iff", "remove_cas_fail_unchanged", "remove_cas_success_removes",
     "add_if_new_never_overwrites", "add_if_new_success_iff",
-    "cas_linearizable_under_lock", "cas_atomic_schedules", "cas_atomic_second_fails",
-    "cas_race_witness", "cas_legacy_witness",
+    "cas_linearizable_under_lock", "cas_atomic_schedules", "sched_classification", "sched_complete",
+    "cas_atomic_second_fails", "cas_race_witness", "add_remove_race_witness",
+    "container_coherent_is_cas", "containers_coherent_is_cas_partial", "single_container_is_cas",
+    "no_repack_is_cas", "stale_cache_witness", "reload_is_cas",
+    "cas_legacy_witness",
 ]
 
 RULE = ("stores over 6 ref names x values {absent, loose sha, packed sha, both, symref (chain, dangling, loop)}; "
         "operations set_if_equals / remove_if_equals / add_if_new with expected value in {None, current, other, "
-        "ZERO_SHA}; a case is non-trivial when the expected value is given, or the name is symbolic, packed or absent "
+        "ZERO_SHA, the value the acting container's packed cache remembers}; one or two containers (packed cache "
+        "unloaded / loaded / stale) and outside pack-refs; two threaded updaters of every kind on complete and partial "
+        "schedules; fetch_refs with a concurrent change of the ref. A case is non-trivial when the expected value is "
+        "given, or the name is symbolic, packed or absent, or the acting container's cache is stale "
         "(i.e. anything but an unconditional update of a plain loose ref)")
 ASSUMPTIONS = [
     "ref names and SHAs are abstract (the harness maps indices to real names / 40-digit SHAs; SHA 0 is ZERO_SHA)",
     "dulwich RefsContainer.follow/read_ref, read/write_packed_refs and the transport are called, not verified; "
     "follow is modelled and compared per case",
-    "two updaters interleave at the granularity read-phase / write-phase (transport put_bytes)",
+    "two updaters interleave at the granularity read-phase / write-phase (first transport mutation: put_bytes or delete); "
+    "the write phase of remove_if_equals (delete loose file, re-read and rewrite packed-refs) runs without interruption",
+    "two containers on one transport are operated one after the other (no overlap) in the stale-cache family",
 ]
-TRUSTED = ["peeled entries of packed-refs and reflogs are not modelled; invalid ref names are outside the generator"]
+TRUSTED = ["peeled entries of packed-refs and reflogs are not modelled; invalid ref names are outside the generator; "
+           "HEAD lives on the same transport (no separate worktree transport)"]
 
 NAMES = [b"HEAD", b"refs/heads/a", b"refs/heads/b", b"refs/tags/t", b"refs/heads/d/e", b"refs/remotes/o/m"]
 NIDX = {n: i for i, n in enumerate(NAMES)}
 SYMREF = b"ref: "
+THREAD_WAIT = 120       # seconds; a longer wait is an infrastructure failure (exit 2), never a violation
 
 
 def sha(k):
@@ -78,6 +125,13 @@ def unsha(b):
 
 # --------------------------------------------------------------------------
 # stores
+
+
+def write_packed(t, packed):
+    lines = [b"# pack-refs with: peeled\n"]
+    for i in sorted(packed, key=lambda i: NAMES[i]):
+        lines.append(sha(packed[i]) + b" " + NAMES[i] + b"\n")
+    t.put_bytes("packed-refs", b"".join(lines))
 
 
 def make_transport(store, kind="memory"):
@@ -95,10 +149,7 @@ def make_transport(store, kind="memory"):
         body = (sha(v[1]) if v[0] == "S" else SYMREF + NAMES[v[1]]) + b"\n"
         t.put_bytes(urlutils.quote_from_bytes(NAMES[i]), body)
     if store["packed"]:
-        lines = [b"# pack-refs with: peeled\n"]
-        for i in sorted(store["packed"], key=lambda i: NAMES[i]):
-            lines.append(sha(store["packed"][i]) + b" " + NAMES[i] + b"\n")
-        t.put_bytes("packed-refs", b"".join(lines))
+        write_packed(t, store["packed"])
     return t
 
 
@@ -130,10 +181,37 @@ def observe(t):
     return dict(loose=loose, packed=packed)
 
 
+def obs_cache(refs):
+    """the packed-refs cache of a container (None = not loaded)"""
+    pr = refs._packed_refs
+    if pr is None:
+        return None
+    return {(NIDX[n] if n in NIDX else n.hex()): unsha(s) for n, s in pr.items()}
+
+
+def do_pack(t, n):
+    """`git pack-refs` of one ref by an outside process: the loose SHA moves into packed-refs"""
+    from breezy import urlutils
+    st = observe(t)
+    v = st["loose"].get(n)
+    if v is None or v[0] != "S":
+        return False
+    st["packed"][n] = v[1]
+    write_packed(t, st["packed"])
+    t.delete(urlutils.quote_from_bytes(NAMES[n]))
+    return True
+
+
 def enc_store(st):
     l = ",".join("%d:%s%d" % (i, v[0], v[1]) for i, v in sorted(st["loose"].items())) or "-"
     p = ",".join("%d:%d" % (i, k) for i, k in sorted(st["packed"].items())) or "-"
     return l + " " + p
+
+
+def enc_cache(c):
+    if c is None:
+        return "~"
+    return ",".join("%d:%d" % (i, k) for i, k in sorted(c.items())) or "-"
 
 
 def js_store(st):
@@ -194,6 +272,25 @@ def spec_current(st, i):
     return v if v is not None else ("S", 0)
 
 
+def spec_follow(st, n):
+    """RefsContainer.follow on a store: (names, sha | None), or None for SymrefLoop.  Only used where no
+    transport exists (sequential outcomes of two updaters); cross-checked with dulwich in check_cc."""
+    names, cur, depth = [], n, 0
+    while True:
+        names.append(cur)
+        v = spec_read(st, cur)
+        if v is None:
+            return names, None
+        depth += 1
+        if depth > 5:
+            return None
+        if v[0] == "S":
+            return names, v[1]
+        if v[0] != "R":
+            return names, None
+        cur = v[1]
+
+
 def container_realname(refs, name):
     """the real name as the container's own follow() sees it"""
     from dulwich.refs import SymrefLoop  # noqa
@@ -204,12 +301,28 @@ def container_realname(refs, name):
         return name
 
 
-def apply_spec(st, op, real):
-    """expected (flag, store) for op under the CAS specification; `real` = real ref index"""
+def fresh_follow(t, n):
+    """follow() of a NEW container on the transport: what the name currently is, whatever any cache says.
+    -> ('loop',) | (real index, sha | None)"""
+    from breezy.git.transportgit import TransportRefsContainer
+    from dulwich.refs import SymrefLoop
+    try:
+        names, v = TransportRefsContainer(t).follow(NAMES[n])
+    except SymrefLoop:
+        return ("loop",)
+    return (NIDX[names[-1]], None if v is None else unsha(v))
+
+
+def apply_spec(st, op, real=None, ff=None):
+    """expected (flag, store) for op under the CAS specification.  `real` = real ref index (set), `ff` =
+    fresh_follow result (add); both default to spec_follow on `st`."""
     st2 = dict(loose=dict(st["loose"]), packed=dict(st["packed"]))
     kind = op[0]
     if kind == "set":
         _, n, old, new = op
+        if real is None:
+            f = spec_follow(st, n)
+            real = n if f is None else f[0][-1]
         if old is not None and spec_current(st, real) != ("S", old):
             return False, st2
         st2["loose"][real] = ("S", new)
@@ -220,6 +333,24 @@ def apply_spec(st, op, real):
             return False, st2
         st2["loose"].pop(n, None)
         st2["packed"].pop(n, None)
+        return True, st2
+    if kind == "add":
+        _, n, new = op
+        if ff is None:
+            f = spec_follow(st, n)
+            ff = ("loop",) if f is None else (f[0][-1], f[1])
+        if ff == ("loop",):
+            return "E:Loop", st2
+        if ff[1] is not None:
+            return False, st2
+        st2["loose"][ff[0]] = ("S", new)
+        return True, st2
+    if kind == "pack":
+        v = st["loose"].get(op[1])
+        if v is None or v[0] != "S":
+            return False, st2
+        st2["loose"].pop(op[1])
+        st2["packed"][op[1]] = v[1]
         return True, st2
     raise ValueError(kind)
 
@@ -246,6 +377,20 @@ def op_line(op, st, legacy=False, cache=True):
             return "rmL %s %s %d %s" % ("T" if cache else "F", enc_store(st), op[1], "~" if op[2] is None else op[2])
         return "rm %s %d %s" % (enc_store(st), op[1], "~" if op[2] is None else op[2])
     return "add %s %d %d" % (enc_store(st), op[1], op[2])
+
+
+def enc_op(op):
+    if op[0] == "set":
+        return "s:%d:%s:%d" % (op[1], "~" if op[2] is None else op[2], op[3])
+    if op[0] == "rm":
+        return "r:%d:%s" % (op[1], "~" if op[2] is None else op[2])
+    if op[0] == "add":
+        return "a:%d:%d" % (op[1], op[2])
+    return "p:%d" % op[1]
+
+
+def res_tok(flag):
+    return flag if flag == "E:Loop" else ("T" if flag else "F")
 
 
 def res_str(flag, st):
@@ -293,6 +438,8 @@ def gen_op(rng, st):
 
 
 def nontrivial(op, st):
+    if op[0] == "pack":
+        return False
     v = st["loose"].get(op[1])
     plain = v is not None and v[0] == "S" and op[1] not in st["packed"]
     return not (op[0] == "set" and op[2] is None and plain)
@@ -348,8 +495,6 @@ def check_one(ctx, st0, ops, kind="memory", preload=True, pending=None):
         # ---- T2
         if pending is not None:
             pending.append((case, op, before, res_str(flag, after), cache))
-        if op[0] == "rm" or (op[0] == "set" and op[2] is not None):
-            pass
         cache = cache or refs._packed_refs is not None
 
 
@@ -372,11 +517,189 @@ def flush(ctx, pending):
 
 
 # --------------------------------------------------------------------------
+# two containers on one transport, one after the other (stale packed-refs caches)
+
+
+OP_NAME = {"set": "set_if_equals", "rm": "remove_if_equals", "add": "add_if_new", "pack": "pack-refs"}
+
+
+def gen_cc_act(rng, before, caches):
+    """one (who, op) given the store on the transport and both containers' caches"""
+    who = 1 if rng.random() < 0.5 else 0
+    r = rng.random()
+    if r < 0.12:
+        cands = [i for i, v in before["loose"].items() if v[0] == "S" and i != 0]
+        return who, ("pack", rng.choice(cands) if cands and rng.random() < 0.9 else rng.randrange(1, len(NAMES)))
+    op = gen_op(rng, before)
+    c = caches[who]
+    if c and rng.random() < 0.45:
+        # aim at what the acting container remembers: a name in its cache, expecting the remembered value
+        n = rng.choice(sorted(c))
+        if isinstance(n, int):
+            k = rng.random()
+            if k < 0.45:
+                op = ("set", n, c[n], rng.randint(1, 5))
+            elif k < 0.85:
+                op = ("rm", n, c[n])
+            else:
+                op = ("add", n, rng.randint(1, 5))
+    elif rng.random() < 0.15:
+        # ... or at a name that is packed now
+        cands = sorted(before["packed"])
+        if cands:
+            n = rng.choice(cands)
+            op = rng.choice([("rm", n, None), ("rm", n, before["packed"][n]), ("add", n, rng.randint(1, 5)),
+                             ("set", n, before["packed"][n], rng.randint(1, 5))])
+    return who, op
+
+
+def check_cc(ctx, st0, acts, variant, kind="memory", preload=(False, False), pending=None, seqs=None, gen=None, nacts=0):
+    """two containers A (0) and B (1) on one transport; `acts` = [(who, op)] or generated one at a time by `gen`"""
+    from breezy.git.transportgit import TransportRefsContainer
+    t = make_transport(st0, kind)
+    conts = [TransportRefsContainer(t), TransportRefsContainer(t)]
+    for c, p in zip(conts, preload):
+        if p:
+            c.get_packed_refs()
+    c0 = [obs_cache(c) for c in conts]
+    acts = list(acts)
+    results = []
+    k = 0
+    while True:
+        before = observe(t)
+        if gen is not None and k >= len(acts) and k < nacts:
+            acts.append(gen(before, [obs_cache(c) for c in conts]))
+        if k >= len(acts):
+            break
+        who, op = acts[k]
+        refs = conts[who]
+        cb = obs_cache(refs)
+        case = dict(kind="cc", transport=kind, preload=list(preload), store=js_store(st0),
+                    acts=[[w, list(o)] for w, o in acts[:k + 1]], at=k)
+        stale = cb is not None and cb != before["packed"]
+        ctx.case(["cc", enc_cache(cb), enc_store(before), list(op)], nontrivial=stale or nontrivial(op, before))
+        if op[0] == "pack":
+            flag = do_pack(t, op[1])
+            ff = None
+        else:
+            ff = fresh_follow(t, op[1]) if op[0] in ("set", "add") else None
+            sf = spec_follow(before, op[1]) if ff is not None else None
+            if ff is not None and ff != (("loop",) if sf is None else (sf[0][-1], sf[1])):
+                ctx.mismatch(case, str(ff), str(sf), tie="oracle follow (python spec_follow vs dulwich follow of a fresh container)")
+            flag = run_op(refs, op)
+        after = observe(t)
+        ca = obs_cache(refs)
+        ctx.count("cc:%s:%s:%s" % (op[0], res_tok(flag), "stale" if stale else ("unloaded" if cb is None else "coherent")))
+        # ---- oracle
+        if op[0] != "pack":
+            real = None
+            if op[0] == "set":
+                real = op[1] if ff == ("loop",) else ff[0]
+            exp_flag, exp_st = apply_spec(before, op, real=real, ff=ff)
+            bad = flag != exp_flag or after != exp_st
+            if op[0] == "add" and flag == "E:Loop" and exp_flag == "E:Loop":
+                bad = after != before
+            if bad:
+                fam = None
+                cmpn = real if op[0] == "set" else op[1]
+                cur = spec_current(before, cmpn)
+                if stale:
+                    # is the cache the reason?  the same operation by a container with a fresh view of an identical transport
+                    t2 = make_transport(before, "memory")
+                    flag2 = run_op(TransportRefsContainer(t2), op)
+                    if (flag2, observe(t2)) == (exp_flag, exp_st):
+                        fam = "cas-stale-packed-cache"
+                if fam is None and op[0] in ("set", "rm") and op[2] is not None and cur != ("S", op[2]) and flag is True:
+                    fam = "cas-old-value-ignored"
+                what = ("container %s (packed-refs cache %s; packed-refs file %s) %s(%s%s%s) on %s: returned %s, store "
+                        "afterwards %s; on the transport the ref compared (%s) held %s -> expected %s, %s" % (
+                            "AB"[who], enc_cache(cb), enc_store(before).split(" ")[1], OP_NAME[op[0]], NAMES[op[1]].decode(),
+                            "" if op[0] == "add" else ", old=%s" % ("None" if op[2] is None else "sha%d" % op[2]),
+                            ", new=sha%d" % op[-1] if op[0] in ("set", "add") else "",
+                            enc_store(before), flag, enc_store(after), NAMES[cmpn].decode() if isinstance(cmpn, int) else cmpn,
+                            cur, exp_flag, enc_store(exp_st)))
+                ctx.violation(case, what, family=fam)
+        # ---- T2 (one step, with the cache observed before it)
+        if pending is not None:
+            pending.append((case, "%s %s %s %s" % ("step" + variant, enc_cache(cb), enc_store(before), enc_op(op)),
+                            "%s %s %s" % (res_tok(flag), enc_store(after), enc_cache(ca))))
+        results.append(res_tok(flag))
+        k += 1
+    if seqs is not None and acts:
+        final = observe(t)
+        case = dict(kind="cc", transport=kind, preload=list(preload), store=js_store(st0),
+                    acts=[[w, list(o)] for w, o in acts], at=len(acts) - 1)
+        seqs.append((case, "runcc %s %s %s %s %s" % (variant, enc_cache(c0[0]), enc_cache(c0[1]), enc_store(st0),
+                                                    ";".join("AB"[w] + enc_op(o) for w, o in acts)),
+                     "%s %s %s %s" % (",".join(results), enc_store(final), enc_cache(obs_cache(conts[0])),
+                                      enc_cache(obs_cache(conts[1])))))
+    return acts
+
+
+def flush_cc(ctx, pending, seqs):
+    if pending:
+        ctx.diff([p[0] for p in pending], [p[1] for p in pending], [p[2] for p in pending], tie="T2 container step")
+    if seqs:
+        rep = ctx.model([q[1] for q in seqs])
+        for (case, line, impl), m in zip(seqs, rep):
+            ctx.traces += 1
+            f = m.split(" ")
+            # reply: results loose packed cacheA cacheB coh=X spec-results spec-loose spec-packed
+            if len(f) != 9:
+                ctx.mismatch(case, impl, m, line=line, tie="T2 container sequence")
+                continue
+            run_part, coh, spec_part = " ".join(f[:5]), f[5], " ".join(f[6:])
+            ctx.count("cc-seq:" + coh)
+            if impl != run_part:
+                ctx.mismatch(case, impl, run_part, line=line, tie="T2 container sequence")
+            elif coh == "coh=T" and " ".join(impl.split(" ")[:3]) != spec_part:
+                # hypothesis of containers_coherent_is_cas_partial holds, yet the real run is not the specification
+                ctx.mismatch(case, impl, spec_part, line=line, tie="hypothesis coh=T but the real run differs from runSpec")
+    del pending[:]
+    del seqs[:]
+
+
+def probe_reload():
+    """does a conditional update re-read packed-refs (cache dropped first)?  selects the model variant"""
+    from breezy.git.transportgit import TransportRefsContainer
+    t = make_transport(dict(loose={}, packed={1: 1}))
+    a = TransportRefsContainer(t)
+    a.get_packed_refs()
+    t.delete("packed-refs")
+    return a.set_if_equals(NAMES[1], sha(1), sha(2)) is False
+
+
+def sec_cc(ctx, variant):
+    pending, seqs = [], []
+    # exhaustive small family: one name; A has (not) loaded packed-refs; someone else acts; A acts on what it remembers
+    inits = [dict(loose={}, packed={1: 1}), dict(loose={1: ("S", 1)}, packed={}),
+             dict(loose={1: ("S", 1)}, packed={1: 3}), dict(loose={}, packed={}),
+             dict(loose={0: ("R", 1)}, packed={1: 1})]
+    firsts = [None, (1, ("rm", 1, None)), (1, ("set", 1, None, 2)), (1, ("pack", 1)), (1, ("add", 1, 2))]
+    seconds = ([("set", n, o, 4) for n in (1, 0) for o in (0, 1, 2, 3)] + [("rm", 1, o) for o in (0, 1, 2, 3)]
+               + [("add", 1, 4), ("add", 0, 4)])
+    for st, pre, first, second in itertools.product(inits, (True, False), firsts, seconds):
+        if second[1] == 0 and 0 not in st["loose"]:
+            continue
+        acts = ([first] if first else []) + [(0, second)]
+        check_cc(ctx, st, acts, variant, preload=(pre, False), pending=pending, seqs=seqs)
+    ctx.extra["exhaustive_two_container_single_name"] = True
+    for i in range(ctx.pick(500, 6000)):
+        st = gen_store(ctx.rng)
+        pre = (ctx.rng.random() < 0.7, ctx.rng.random() < 0.5)
+        kind = "disk" if i % 25 == 0 else "memory"
+        check_cc(ctx, st, [], variant, kind=kind, preload=pre, pending=pending, seqs=seqs,
+                 gen=lambda before, caches: gen_cc_act(ctx.rng, before, caches), nacts=ctx.rng.randint(2, 6))
+    flush_cc(ctx, pending, seqs)
+
+
+# --------------------------------------------------------------------------
 # two updaters
 
 
 class HookTransport:
-    """delegates to a transport; put_bytes first reports to the scheduler and waits"""
+    """delegates to a transport; the first mutation (put_bytes / delete / open_write_stream) first reports to
+    the scheduler and waits"""
 
     def __init__(self, inner, gate):
         self._inner = inner
@@ -385,19 +708,49 @@ class HookTransport:
     def __getattr__(self, name):
         return getattr(self._inner, name)
 
-    def put_bytes(self, *a, **kw):
-        self._gate.reached.set()
-        self._gate.go.wait()
-        return self._inner.put_bytes(*a, **kw)
+    def _stop(self, what, relpath):
+        g = self._gate
+        if g.passed:
+            return
+        g.passed = True
+        g.intent = (what, relpath)
+        g.reached.set()
+        if not g.go.wait(THREAD_WAIT):
+            g.timed_out = True
+
+    def put_bytes(self, relpath, *a, **kw):
+        self._stop("will", relpath)
+        return self._inner.put_bytes(relpath, *a, **kw)
+
+    def delete(self, relpath, *a, **kw):
+        self._stop("del", relpath)
+        return self._inner.delete(relpath, *a, **kw)
+
+    def open_write_stream(self, relpath, *a, **kw):
+        self._stop("del", relpath)
+        return self._inner.open_write_stream(relpath, *a, **kw)
 
 
 class Gate:
     def __init__(self):
         self.reached = threading.Event()
         self.go = threading.Event()
+        self.passed = False
+        self.intent = None
+        self.timed_out = False
+
+
+UKIND = {"set": 0, "add": 1, "rm": 2}
+
+
+def qidx():
+    from breezy import urlutils
+    return {urlutils.quote_from_bytes(n): i for i, n in enumerate(NAMES)}
 
 
 class Updater:
+    """upd = (kind, name, old, new)"""
+
     def __init__(self, t, upd):
         from breezy.git.transportgit import TransportRefsContainer
         self.gate = Gate()
@@ -409,8 +762,13 @@ class Updater:
 
     def _run(self):
         try:
-            n, o, w = self.upd
-            self.result = self.refs.set_if_equals(NAMES[n], sha(o), sha(w))
+            k, n, o, w = self.upd
+            if k == "set":
+                self.result = self.refs.set_if_equals(NAMES[n], sha(o), sha(w))
+            elif k == "add":
+                self.result = self.refs.add_if_new(NAMES[n], sha(w))
+            else:
+                self.result = self.refs.remove_if_equals(NAMES[n], sha(o))
         except Exception as e:  # noqa: BLE001
             self.result = "E:" + type(e).__name__
         finally:
@@ -421,90 +779,272 @@ class Updater:
         if self.thread is None:
             self.thread = threading.Thread(target=self._run, daemon=True)
             self.thread.start()
-            self.gate.reached.wait(20)      # read phase done: at put_bytes, or finished
+            if not self.gate.reached.wait(THREAD_WAIT):      # read phase done: at the first mutation, or finished
+                raise env.InfraError("C37: updater thread did not reach its write phase within %d s" % THREAD_WAIT)
         elif not self.finished.is_set():
             self.gate.go.set()
-            self.finished.wait(20)
+            if not self.finished.wait(THREAD_WAIT):
+                raise env.InfraError("C37: updater thread did not finish within %d s" % THREAD_WAIT)
+
+    def phase(self):
+        if self.thread is None:
+            return "idle"
+        if self.finished.is_set():
+            if self.result == "E:SymrefLoop":
+                return "raised"
+            if self.result is True or self.result is False:
+                return "done:" + ("T" if self.result else "F")
+            return str(self.result)
+        what, relpath = self.gate.intent
+        return "%s:%s" % (what, qidx().get(relpath, relpath))
 
     def close(self):
         self.gate.go.set()
         if self.thread is not None:
-            self.thread.join(20)
+            self.thread.join(THREAD_WAIT)
+            if self.thread.is_alive() or self.gate.timed_out:
+                raise env.InfraError("C37: updater thread timed out")
 
 
 SCHEDULES = ["AABB", "ABAB", "ABBA", "BAAB", "BABA", "BBAA"]
+MIXED = ("ABAB", "ABBA", "BAAB", "BABA")
+
+
+def norm_upd(u):
+    u = tuple(u)
+    return ("set",) + u if len(u) == 3 else u
 
 
 def run_schedule(st0, a, b, sched):
+    """-> (phase A, phase B, store) as they are when the schedule's moves are done (pending writes not yet
+    released), then releases everything"""
     t = make_transport(st0)
-    ua, ub = Updater(t, a), Updater(t, b)
+    ua, ub = Updater(t, norm_upd(a)), Updater(t, norm_upd(b))
     try:
         for c in sched:
             (ua if c == "A" else ub).step()
+        out = (ua.phase(), ub.phase(), observe(t))
     finally:
         ua.close()
         ub.close()
-    return ua.result, ub.result, observe(t)
+    return out
 
 
 def seq_outcome(st0, first, second):
-    """CAS specification applied sequentially (oracle)"""
-    def real_of(st, n):
-        seen, cur = [], n
-        for _ in range(7):
-            v = spec_read(st, cur)
-            if v is None or v[0] != "R" or cur in seen:
-                break
-            seen.append(cur)
-            cur = v[1]
-        return cur
-    f1, s1 = apply_spec(st0, ("set",) + tuple(first), real_of(st0, first[0]))
-    f2, s2 = apply_spec(s1, ("set",) + tuple(second), real_of(s1, second[0]))
+    """CAS specification applied sequentially (oracle) -> (phase first, phase second, store)"""
+    def one(st, u):
+        k, n, o, w = u
+        op = ("set", n, o, w) if k == "set" else (("add", n, w) if k == "add" else ("rm", n, o))
+        f, s2 = apply_spec(st, op)
+        return ("raised" if f == "E:Loop" else "done:" + ("T" if f else "F")), s2
+    f1, s1 = one(st0, norm_upd(first))
+    f2, s2 = one(s1, norm_upd(second))
     return f1, f2, s2
+
+
+def race_family(st0, a, b, sched, pa, pb, final):
+    """the committed known finding is exactly the lost update: both updaters read the initial store and decided
+    to write, then both writes were applied on top of each other; anything else is not that family"""
+    if sorted(sched[:2]) != ["A", "B"] or pa != "done:T" or pb != "done:T":
+        return None
+    second = sorted("AB", key=lambda c: sched.index(c, sched.index(c) + 1))      # order of the write phases
+    st = dict(loose=dict(st0["loose"]), packed=dict(st0["packed"]))
+    for c in second:
+        k, n, _o, w = norm_upd(a if c == "A" else b)
+        if k == "rm":
+            st["loose"].pop(n, None)
+            st["packed"].pop(n, None)
+        else:
+            f = spec_follow(st0, n)
+            st["loose"][n if f is None else f[0][-1]] = ("S", w)
+    return "cas-race-unlocked" if st == final else None
+
+
+def upd_field(u):
+    u = norm_upd(u)
+    return "%d,%d,%d,%d" % (UKIND[u[0]], u[1], u[2], u[3])
+
+
+def gen_upd_pair(rng, st0):
+    if rng.random() < 0.2:
+        # both updaters rewrite packed-refs: removals of two different packed-only refs (the write phase of the
+        # second must start from the packed-refs file the first one left, not from what it read earlier)
+        p1, p2 = rng.sample(range(1, len(NAMES)), 2)
+        for p in (p1, p2):
+            st0["loose"].pop(p, None)
+            st0["packed"][p] = rng.randint(1, 4)
+        mk = lambda p: ("rm", p, st0["packed"][p] if rng.random() < 0.85 else 0, 0)   # noqa: E731
+        return mk(p1), mk(p2)
+    n = rng.randrange(len(NAMES))
+    f = spec_follow(st0, n)
+    if f is None or len(f[0]) > 5:
+        return None            # no symref loops / over-long chains here (follow must succeed for the oracle's real name)
+    real = f[0][-1]
+    curv = spec_current(st0, real)
+
+    def mk(name):
+        k = rng.random()
+        kind = "set" if k < 0.5 else ("add" if k < 0.72 else "rm")
+        cmpv = spec_current(st0, name) if kind == "rm" else curv
+        old = cmpv[1] if cmpv[0] == "S" and rng.random() < 0.8 else rng.randint(0, 4)
+        return (kind, name, 0 if kind == "add" else old, rng.randint(5, 6))
+    a = mk(n)
+    if rng.random() < 0.25:
+        # an unrelated ref, preferably a packed one (both write phases rewrite packed-refs)
+        others = [i for i in sorted(st0["packed"]) if i not in (n, real)] or [i for i in range(1, len(NAMES)) if i not in (n, real)]
+        b = mk(rng.choice(others))
+    else:
+        b = mk(rng.choice([n, n, real]))
+    if b[3] == a[3]:
+        b = b[:3] + (11 - a[3],)
+    return a, b
 
 
 def sec_sched(ctx, legacy_f2):
     cases, lines, impls = [], [], []
-    for _ in range(ctx.pick(25, 250)):
+    done = 0
+    for _ in range(ctx.pick(60, 600)):
+        if done >= ctx.pick(30, 300):
+            break
         st0 = gen_store(ctx.rng)
-        # no symref loops / over-long chains here (follow must succeed)
-        n = ctx.rng.randrange(len(NAMES))
-        seen, cur, okc = [], n, True
-        for _ in range(7):
-            v = spec_read(st0, cur)
-            if v is None or v[0] != "R":
-                break
-            if cur in seen or len(seen) >= 4:
-                okc = False
-                break
-            seen.append(cur)
-            cur = v[1]
-        if not okc:
+        pair = gen_upd_pair(ctx.rng, st0)
+        if pair is None:
             continue
-        curv = spec_current(st0, cur)
-        old = curv[1] if curv[0] == "S" and ctx.rng.random() < 0.8 else ctx.rng.randint(0, 4)
-        a = (n, old, 5)
-        b = (ctx.rng.choice([n, n, cur]), old if ctx.rng.random() < 0.8 else ctx.rng.randint(0, 4), 6)
-        for sched in SCHEDULES:
-            ra, rb, final = run_schedule(st0, a, b, sched)
+        done += 1
+        a, b = pair
+        extra = ["".join(ctx.rng.choice("AB") for _ in range(ctx.rng.randint(1, 6))) for _ in range(2)]
+        for sched in SCHEDULES + extra:
+            pa, pb, final = run_schedule(st0, a, b, sched)
             case = dict(kind="sched", store=js_store(st0), a=list(a), b=list(b), sched=sched)
             ctx.case(["sched", enc_store(st0), list(a), list(b), sched])
-            ctx.count("sched:%s:%s%s" % (sched, "T" if ra is True else "F", "T" if rb is True else "F"))
-            o1 = seq_outcome(st0, a, b)
-            o2 = seq_outcome(st0, b, a)
-            o2 = (o2[1], o2[0], o2[2])
-            if (ra, rb, final) not in (o1, o2):
-                fam = "cas-old-value-ignored" if legacy_f2 else (
-                    "cas-race-unlocked" if sched in ("ABAB", "ABBA", "BAAB", "BABA") and ra is True and rb is True else None)
-                ctx.violation(case, "two updaters %s and %s of %s, schedule %s (read/write phases): results %s/%s, final "
-                              "store %s; no sequential order of the two compare-and-swaps gives this (A;B -> %s, B;A -> %s)"
-                              % (a, b, enc_store(st0), sched, ra, rb, enc_store(final), o1[:2], o2[:2]), family=fam)
+            complete = sched.count("A") >= 2 and sched.count("B") >= 2
+            ctx.count("sched:%s:%s+%s:%s/%s" % (sched if sched in SCHEDULES else "other", a[0], b[0], pa.split(":")[0] + pa[-1:],
+                                                 pb.split(":")[0] + pb[-1:]))
+            if complete:
+                o1 = seq_outcome(st0, a, b)
+                o2 = seq_outcome(st0, b, a)
+                o2 = (o2[1], o2[0], o2[2])
+                if (pa, pb, final) not in (o1, o2):
+                    fam = "cas-old-value-ignored" if legacy_f2 else race_family(st0, a, b, sched, pa, pb, final)
+                    ctx.violation(case, "two updaters %s and %s of %s, schedule %s (read/write phases): results %s/%s, final "
+                                  "store %s; no sequential order of the two operations gives this (A;B -> %s, B;A -> %s)"
+                                  % (a, b, enc_store(st0), sched, pa, pb, enc_store(final), o1[:2], o2[:2]), family=fam)
             if not legacy_f2:
                 cases.append(case)
-                lines.append("sched %s %s %s %s" % (enc_store(st0), ",".join(map(str, a)), ",".join(map(str, b)), sched))
-                impls.append("%s done:%s done:%s" % (enc_store(final), "T" if ra is True else "F", "T" if rb is True else "F"))
+                lines.append("sched %s %s %s %s" % (enc_store(st0), upd_field(a), upd_field(b), sched))
+                impls.append("%s %s %s" % (enc_store(final), pa, pb))
     if lines:
         ctx.diff(cases, lines, impls, tie="T2 schedules")
+
+
+# --------------------------------------------------------------------------
+# fetch_refs: the caller of the conditional updates during push
+
+
+FETCH_NAMES = [b"refs/heads/master", b"HEAD"]
+FAKE = b"5" * 40
+
+
+def fetch_source():
+    """a bzr branch with three revisions (built once per run)"""
+    global _SRC
+    try:
+        return _SRC
+    except NameError:
+        pass
+    wt = env.make_tree("2a")
+    revs = []
+    for i in range(3):
+        with open(os.path.join(wt.basedir, "f"), "a") as f:
+            f.write("%d\n" % i)
+        if i == 0:
+            wt.add(["f"])
+        revs.append(wt.commit("r%d" % i, committer="a <a@b>", timestamp=1000000000 + i, timezone=0))
+    _SRC = (wt, revs)
+    return _SRC
+
+
+def fetch_case(ctx, name, initial, conc):
+    """fetch_refs updating `name` to a new revision while another container changes refs/heads/master between
+    fetch_refs' snapshot of the refs and its conditional update (the update_refs callback runs exactly there)"""
+    from breezy.controldir import ControlDir, format_registry
+    from breezy.repository import InterRepository
+    from breezy.git.transportgit import TransportRefsContainer
+    from dromedary.errors import NoSuchFile
+    wt, revs = fetch_source()
+    master = b"refs/heads/master"
+    gd = env.fresh_dir("git")
+    ControlDir.create(gd, format=format_registry.make_controldir("git-bare"))
+    repo = ControlDir.open(gd).open_repository()
+    ct = repo._git._controltransport
+    case = dict(kind="fetch", name=name.decode(), initial=initial, conc=conc)
+    ctx.case(["fetch", name.decode(), initial, conc])
+    seen = {}
+
+    def packed_bytes():
+        try:
+            return ct.get_bytes("packed-refs")
+        except NoSuchFile:
+            return None
+
+    with wt.branch.repository.lock_read():
+        inter = InterRepository.get(wt.branch.repository, repo)
+        if initial != "absent":
+            inter.fetch_refs(lambda old: {master: (None, revs[0])}, lossy=True)
+            if initial == "packed":
+                v = TransportRefsContainer(ct).read_ref(master)
+                ct.put_bytes("packed-refs", b"# pack-refs with: peeled\n" + v + b" " + master + b"\n")
+                ct.delete("refs/heads/master")
+                repo = ControlDir.open(gd).open_repository()
+                inter = InterRepository.get(wt.branch.repository, repo)
+
+        def update_refs(old_refs):
+            other = TransportRefsContainer(ct)
+            seen["old"] = other.get(name)
+            seen["packed0"] = packed_bytes()
+            if conc == "set":
+                other.set_if_equals(master, None, FAKE)
+            elif conc == "rm":
+                other.remove_if_equals(master, None)
+            elif conc == "add":
+                other.add_if_new(master, FAKE)
+            seen["mid"] = TransportRefsContainer(ct).get(name)
+            seen["packed1"] = packed_bytes()
+            seen["loose"] = TransportRefsContainer(ct).read_loose_ref(master)
+            return {name: (None, revs[1])}
+        err = None
+        result = {}
+        try:
+            _revidmap, _old, result = inter.fetch_refs(update_refs, lossy=True)
+        except Exception as e:  # noqa: BLE001
+            err = type(e).__name__
+    actual = TransportRefsContainer(ct).get(name)
+    claimed = result.get(name, (None, None))[0] if err is None else None
+    changed = seen["mid"] != seen["old"]
+    ctx.count("fetch:%s:%s:%s:%s" % (name.decode().split("/")[-1], initial, conc,
+                                    "raised" if err else ("updated" if actual == claimed else "claimed-only")))
+    show = lambda v: None if v is None else v.decode()  # noqa: E731
+    desc = ("fetch_refs({%s: new revision}) into a bare git repository, %s %s before, another container does %s on it "
+            "between fetch_refs' snapshot and its conditional update (value then %s): %s; the ref afterwards resolves to %s"
+            % (name.decode(), master.decode(), initial, {"none": "nothing", "set": "set", "rm": "remove", "add": "add_if_new"}[conc],
+               show(seen["mid"]), "raised " + err if err else "reported %s" % show(claimed), show(actual)))
+    if err is None and claimed is not None and claimed != actual:
+        ctx.violation(case, desc + " -> success reported for an update that did not happen",
+                      family="fetch-refs-claims-failed-update" if changed else "fetch-refs-symref-update-dropped")
+    if changed and actual != seen["mid"]:
+        stale = seen["packed0"] != seen["packed1"] and seen["loose"] is None
+        ctx.violation(case, desc + " -> the ref no longer held the value fetch_refs had seen, yet it was overwritten",
+                      family="cas-stale-packed-cache" if stale else None)
+    if not changed and (err is not None or actual is None or claimed != actual or actual == seen["old"]):
+        if not (err is None and claimed is not None and claimed != actual):      # already reported above
+            ctx.violation(case, desc + " -> nobody interfered, the update must happen and be reported")
+    return dict(err=err, claimed=show(claimed), actual=show(actual), old=show(seen["old"]), mid=show(seen["mid"]))
+
+
+def sec_fetch(ctx):
+    for name, initial, conc in itertools.product(FETCH_NAMES, ("absent", "loose", "packed"), ("none", "set", "rm", "add")):
+        fetch_case(ctx, name, initial, conc)
+    ctx.extra["fetch_refs_cases"] = "2 names x 3 initial states x 4 concurrent actions, all enumerated"
 
 
 # --------------------------------------------------------------------------
@@ -556,9 +1096,10 @@ def run(ctx):
         ctx.count("corpus")
     legacy_f2 = probe_legacy()
     ctx.extra["expected_value_ignored_by_code"] = legacy_f2
+    reloaded = probe_reload()
+    ctx.extra["packed_cache_reloaded"] = reloaded
     follow_check(ctx)
     # exhaustive: one name, every kind of current value x every expected value x both conditional ops
-    vals = [None, ("S", 1), ("S", 0)]
     for lo, pk, oldv in itertools.product([None, ("S", 1), ("S", 2), ("R", 2), ("R", 1)], [None, 1, 3],
                                           [None, 0, 1, 2, 3]):
         for tgt_lo, tgt_pk in itertools.product([None, ("S", 1), ("S", 3)], [None, 1]):
@@ -575,12 +1116,11 @@ def run(ctx):
                 if op[0] == "add" and oldv is not None:
                     continue
                 check_one(ctx, st, [op], pending=pending)
-    del vals
     ctx.extra["exhaustive_single_name"] = True
     for _ in range(ctx.pick(1500, 15000)):
         st = gen_store(ctx.rng)
         check_one(ctx, st, [gen_op(ctx.rng, st)], pending=pending)
-    for _ in range(ctx.pick(300, 3000)):       # sequences on one container (stale caches, repeated CAS)
+    for _ in range(ctx.pick(300, 3000)):       # sequences on one container (repeated CAS)
         st = gen_store(ctx.rng)
         ops, cur = [], st
         for _ in range(ctx.rng.randint(2, 4)):
@@ -593,7 +1133,10 @@ def run(ctx):
         st = gen_store(ctx.rng)
         check_one(ctx, st, [gen_op(ctx.rng, st)], kind="disk", pending=pending)
     flush(ctx, pending)
+    if not legacy_f2:
+        sec_cc(ctx, "f" if reloaded else "c")
     sec_sched(ctx, legacy_f2)
+    sec_fetch(ctx)
 
 
 def replay(ctx, case):
@@ -607,19 +1150,35 @@ def replay(ctx, case):
         model = ctx.model([op_line(p[1], p[2]) for p in pending])
         return dict(case=case, names={i: n.decode() for i, n in enumerate(NAMES)}, impl=impl, model=model,
                     oracle_failures=[v["what"] for v in ctx.violations[n0:]])
+    if case["kind"] == "cc":
+        st = unjs_store(case["store"])
+        acts = [(w, tuple(o)) for w, o in case["acts"]]
+        variant = "f" if probe_reload() else "c"
+        pending, seqs = [], []
+        check_cc(ctx, st, acts, variant, kind=case.get("transport", "memory"), preload=tuple(case.get("preload", (False, False))),
+                 pending=pending, seqs=seqs)
+        model = ctx.model([p[1] for p in pending] + [q[1] for q in seqs])
+        return dict(case=case, names={i: n.decode() for i, n in enumerate(NAMES)},
+                    impl=[p[2] for p in pending] + [q[2] for q in seqs], model=model,
+                    oracle_failures=[v["what"] for v in ctx.violations[n0:]])
+    if case["kind"] == "fetch":
+        r = fetch_case(ctx, case["name"].encode(), case["initial"], case["conc"])
+        return dict(case=case, impl=r, model="(oracle only)", oracle_failures=[v["what"] for v in ctx.violations[n0:]])
     if case["kind"] == "sched":
         st = unjs_store(case["store"])
-        a, b = tuple(case["a"]), tuple(case["b"])
-        ra, rb, final = run_schedule(st, a, b, case["sched"])
-        o1 = seq_outcome(st, a, b)
-        o2 = seq_outcome(st, b, a)
-        o2 = (o2[1], o2[0], o2[2])
-        if (ra, rb, final) not in (o1, o2):
-            ctx.violation(case, "schedule %s: results %s/%s final %s is not the outcome of a sequential order"
-                          % (case["sched"], ra, rb, enc_store(final)),
-                          family="cas-old-value-ignored" if probe_legacy() else "cas-race-unlocked")
-        m = ctx.model(["sched %s %s %s %s" % (enc_store(st), ",".join(map(str, a)), ",".join(map(str, b)), case["sched"])])[0]
-        return dict(case=case, impl="%s %s %s" % (enc_store(final), ra, rb), model=m,
+        a, b = norm_upd(case["a"]), norm_upd(case["b"])
+        sched = case["sched"]
+        pa, pb, final = run_schedule(st, a, b, sched)
+        if sched.count("A") >= 2 and sched.count("B") >= 2:
+            o1 = seq_outcome(st, a, b)
+            o2 = seq_outcome(st, b, a)
+            o2 = (o2[1], o2[0], o2[2])
+            if (pa, pb, final) not in (o1, o2):
+                ctx.violation(case, "schedule %s: results %s/%s final %s is not the outcome of a sequential order"
+                              % (sched, pa, pb, enc_store(final)),
+                              family="cas-old-value-ignored" if probe_legacy() else race_family(st, a, b, sched, pa, pb, final))
+        m = ctx.model(["sched %s %s %s %s" % (enc_store(st), upd_field(a), upd_field(b), sched)])[0]
+        return dict(case=case, impl="%s %s %s" % (enc_store(final), pa, pb), model=m,
                     oracle_failures=[v["what"] for v in ctx.violations[n0:]])
     if case["kind"] == "follow":
         from breezy.git.transportgit import TransportRefsContainer
